@@ -61,6 +61,31 @@ CLAIMED = {
          "Generated-input search: 40k cases quick / 1.2M thorough; values with commas, quotes, newlines, SQL fragments, the text NULL, empty strings and NULLs; after import the table must equal the file's records, the set of tables and all other tables must be unchanged.",
          "CLI is a binary crate and the copy meta-command is REPL-only: the harness calls MetaCommand::parse + SqlExecutor::handle_copy exactly as repl.rs does; println!/eprintln! are captured. CSV NULL = empty field as documented in docs/CLI_GUIDE.md.",
          "DESIGN.md §6 C31"),
+ "C09": ("exploration",
+         "model-based testing of DML effects: generated statement histories applied to the engine and to an executable model of INSERT/UPDATE/DELETE (three-valued WHERE, SET on pre-update values); table contents and reported counts compared after every statement",
+         "Generated-input search: 400k histories quick / 10M thorough of up to 12 statements on a table with optional single/compound primary key, incl. the PK fast-path WHERE shapes, key updates and swaps; a legal statement the engine refuses is a failure unless it is an UPDATE that can hit a transient duplicate.",
+         "Reference = the harness's DML model (dml.rs). Constraint-free except PRIMARY KEY; other properties' deviations are counted, not reported.",
+         "DESIGN.md §6 C09"),
+ "C10": ("exploration",
+         "model-based + invariant testing of integrity constraints over generated DML histories (PRIMARY KEY, UNIQUE, UNIQUE indexes, NOT NULL, CHECK)",
+         "Generated-input search: 400k histories quick / 10M thorough; after every statement, successful or not, a validator checks every declared constraint on the engine's rows, and every statement whose final state would violate a constraint according to the model must be rejected.",
+         "Final-state constraint semantics; an engine that is stricter (rejects transient duplicates) is accepted. Validator and model are ~150 lines in dml.rs.",
+         "DESIGN.md §6 C10"),
+ "C11": ("fault_enumeration",
+         "model-based testing of statement atomicity: generated multi-row statements that fail on a later row (NOT NULL / PK / UNIQUE / CHECK / FK / RESTRICT after cascades); database compared with the pre-statement state after every error",
+         "Generated-input search over failure positions: 400k histories quick / 10M thorough; every statement that returns an error must leave all tables equal to the model's pre-state; classes record which rejection kinds were exercised.",
+         "Failure points are those reachable through SQL (k-th row of a multi-row statement, k-th candidate of an UPDATE/DELETE); trigger-induced failures are C34's subject.",
+         "DESIGN.md §6 C11"),
+ "C12": ("exploration",
+         "model-based testing of referential integrity: generated parent/child/grandchild and self-referencing schemas with every ON DELETE / ON UPDATE action (table-level and column-level syntax), histories compared with a model of cascade / SET NULL closure plus an orphan scan after every statement",
+         "Generated-input search: 400k histories quick / 10M thorough; no orphan may exist after any statement, child tables must equal the model's action closure, orphaning or restricted statements must be rejected.",
+         "Single-column foreign keys referencing a single-column primary key; SET DEFAULT not generated.",
+         "DESIGN.md §6 C12"),
+ "C15": ("exploration",
+         "invariant testing of index structures: after every statement of a generated history the PK hash index, UNIQUE hash indexes and every user index map are compared with a rebuild from scratch on a clone",
+         "Generated-input search: 250k histories quick / 6M thorough with position-shifting deletes, updates of indexed/key columns, DELETE-all/TRUNCATE, INSERT..SELECT; uses only public APIs (primary_key_index, unique_indexes, get_index_data, rebuild_indexes).",
+         "In-memory index backend (the disk-backed backend is C16/C17). A history stops being checked once the engine has accepted a constraint-violating statement (C10's subject).",
+         "DESIGN.md §6 C15"),
  "C21": ("exploration",
          "property-based testing (proptest choice tape): algebraic laws over generated SqlValue triples + documented interval model",
          "Generated-input search: millions of SqlValue triples biased to NaN/±0/inf/extreme ints/unit-converted intervals are checked against the Eq/Ord/Hash laws and an independent interval decomposition. Laws over three values are cheap and the taught pools cover every variant pair, so exploration is the right level; it does not show absence.",
